@@ -1,7 +1,7 @@
 (* Proofs for C16: the model of ParseFlowDesc applied to any rendering of any well-formed rule
    returns the rule's denotation; the attribute list built by newFlowDesc decodes to it. *)
 From Coq Require Import List NArith Bool String Lia.
-From GoUpf Require Import FlowTypes FlowSpec FlowDesc.
+From GoUpf Require Import Bytes FlowTypes FlowSpec FlowDesc.
 Import ListNotations.
 Local Open Scope N_scope.
 
@@ -532,3 +532,160 @@ Proof.
   intros H. unfold parse_flow_desc. rewrite render_ascii, fields_render.
   apply parse_tokens_render. exact H.
 Qed.
+
+(* ---------------------------------------------------------------- convertSlice / unpack *)
+
+Lemma lor_shift16 lo hi : hi < 65536 -> N.lor (N.shiftl lo 16) hi = hi + 2 ^ 16 * lo.
+Proof.
+  intros H. change 65536 with (2 ^ 16) in H. apply N.bits_inj. intros i.
+  rewrite N.lor_spec. destruct (N.ltb_spec i 16) as [Hi|Hi].
+  - rewrite N.shiftl_spec_low by assumption. cbn [orb].
+    rewrite testbit_add_mul_pow2_low by assumption. reflexivity.
+  - rewrite N.shiftl_spec_high' by assumption.
+    rewrite testbit_add_mul_pow2_high by assumption.
+    replace (N.testbit hi i) with false; [apply orb_false_r|].
+    symmetry. rewrite <- (N.mod_small hi (2 ^ 16)) by assumption.
+    apply N.mod_pow2_bits_high. exact Hi.
+Qed.
+
+Lemma le32_word w : w < 4294967296 ->
+  match le32 w with
+  | [b0; b1; b2; b3] => b0 + 256 * b1 + 65536 * b2 + 16777216 * b3 = w
+  | _ => False
+  end.
+Proof.
+  intros H. unfold le32.
+  assert (E1 := N.div_mod w 256 ltac:(lia)).
+  assert (E2 := N.div_mod (w / 256) 256 ltac:(lia)).
+  assert (E3 := N.div_mod (w / 256 / 256) 256 ltac:(lia)).
+  replace (w / 65536) with (w / 256 / 256) by (rewrite N.div_div by lia; reflexivity).
+  replace (w / 16777216) with (w / 256 / 256 / 256) by (rewrite !N.div_div by lia; reflexivity).
+  assert (w / 256 / 256 / 256 < 256) by (repeat apply N.div_lt_upper_bound; lia).
+  rewrite (N.mod_small (w / 256 / 256 / 256)) by assumption.
+  remember (w / 256 / 256 / 256) as q3. remember (w / 256 / 256) as q2. remember (w / 256) as q1.
+  remember (w mod 256) as r0. remember (q1 mod 256) as r1. remember (q2 mod 256) as r2. lia.
+Qed.
+
+Lemma unpack_word lo hi r :
+  lo < 65536 -> hi < 65536 ->
+  unpack (le32 (N.lor (N.shiftl lo 16) hi) ++ r) =
+  match unpack r with Some l => Some ((lo, hi) :: l) | None => None end.
+Proof.
+  intros Hlo Hhi. rewrite lor_shift16 by assumption. change (2 ^ 16) with 65536.
+  assert (Hw : hi + 65536 * lo < 4294967296) by lia.
+  pose proof (le32_word _ Hw) as E. unfold le32 in *. cbn [app unpack]. rewrite E.
+  replace (hi + 65536 * lo) with (hi + lo * 65536) by lia.
+  rewrite N.div_add, N.mod_add by lia. rewrite N.div_small, N.mod_small by assumption.
+  reflexivity.
+Qed.
+
+Theorem unpack_convert l :
+  Forall wf_entry l -> unpack (convert_slice l) = Some (map entry_range l).
+Proof.
+  induction 1 as [|p l Hp Hl IH]; [reflexivity|].
+  unfold convert_slice in *. cbn [flat_map map].
+  destruct p as [|a [|b [|c p]]]; cbn [wf_entry] in Hp; try contradiction.
+  - cbn [port_word entry_range]. rewrite unpack_word by assumption. rewrite IH. reflexivity.
+  - destruct Hp. cbn [port_word entry_range]. rewrite unpack_word by assumption. rewrite IH. reflexivity.
+Qed.
+
+Lemma wf_entry_denote ps : Forall wf_port ps -> Forall wf_entry (map denote_port ps).
+Proof.
+  induction 1 as [|p ps Hp _ IH]; cbn [map]; constructor; [|exact IH].
+  destruct p; cbn [denote_port wf_entry]; exact Hp.
+Qed.
+
+Lemma entry_range_denote ps : map entry_range (map denote_port ps) = map dp_port ps.
+Proof. rewrite map_map. apply map_ext. intros p. destruct p; reflexivity. Qed.
+
+Lemma unpack_ports ps :
+  Forall wf_port ps -> unpack (convert_slice (map denote_port ps)) = Some (map dp_port ps).
+Proof.
+  intros H. rewrite unpack_convert by (apply wf_entry_denote; exact H).
+  rewrite entry_range_denote. reflexivity.
+Qed.
+
+(* ---------------------------------------------------------------- newFlowDesc *)
+
+Lemma first4_addr a : wf_addr a ->
+  first4 (fst (denote_addr a)) = Some (fst (dp_addr a)) /\
+  first4 (snd (denote_addr a)) = Some (snd (dp_addr a)).
+Proof. destruct a; intros _; split; reflexivity. Qed.
+
+Lemma decode_attrs act dir proto si sm di dm sp dp si' sm' di' dm' sp' dp' :
+  first4 si = Some si' -> first4 sm = Some sm' -> first4 di = Some di' -> first4 dm = Some dm' ->
+  unpack sp = Some sp' -> unpack dp = Some dp' ->
+  decode_fd [ (FD_ACTION, AU8 act); (FD_DIRECTION, AU8 dir); (FD_PROTOCOL, AU8 proto);
+              (FD_SRC_IPV4, ABytes si); (FD_SRC_MASK, ABytes sm);
+              (FD_DEST_IPV4, ABytes di); (FD_DEST_MASK, ABytes dm);
+              (FD_SRC_PORT, ABytes sp); (FD_DEST_PORT, ABytes dp) ]
+  = Some {| d_action := act; d_dir := dir; d_proto := proto;
+            d_src_ip := si'; d_src_mask := sm'; d_dst_ip := di'; d_dst_mask := dm';
+            d_sports := sp'; d_dports := dp' |}.
+Proof.
+  intros A B C D E F. unfold decode_fd, get_u8, get_bytes.
+  unfold FD_ACTION, FD_DIRECTION, FD_PROTOCOL, FD_SRC_IPV4, FD_SRC_MASK, FD_DEST_IPV4, FD_DEST_MASK,
+         FD_SRC_PORT, FD_DEST_PORT.
+  cbn [get_attr N.eqb Pos.eqb bind]. rewrite A, B, C, D, E, F. reflexivity.
+Qed.
+
+Lemma dir_code d :
+  let t := match d with DIn => txt "in" | DOut => txt "out" end in
+  (if N_list_eqb t kw_in then Some SDF_IN else if N_list_eqb t kw_out then Some SDF_OUT else None)
+  = Some (match d with DIn => 1 | DOut => 2 end).
+Proof. destruct d; reflexivity. Qed.
+
+Theorem pack_render r sp up : wf_rule r ->
+  exists al, new_flow_desc (render r sp) up = Ok al /\ decode_fd al = Some (swap_if up (denote_dp r)).
+Proof.
+  intros H. unfold new_flow_desc. rewrite (parse_render r sp H).
+  destruct H as (Hp & Hs & Hd & Hsp & Hdp).
+  destruct (first4_addr _ Hs) as [S1 S2]. destruct (first4_addr _ Hd) as [D1 D2].
+  pose proof (unpack_ports _ Hsp) as P1. pose proof (unpack_ports _ Hdp) as P2.
+  unfold attrs_of.
+  destruct up; cbn [swap_fdesc denote f_action f_dir f_proto f_src_ip f_src_mask f_dst_ip f_dst_mask f_sports f_dports];
+    rewrite kwok_permit; cbn [negb]; rewrite (dir_code (r_dir r)).
+  all: eexists; split; [reflexivity|].
+  all: erewrite decode_attrs by eassumption; reflexivity.
+Qed.
+
+(* ---------------------------------------------------------------- consistency of the two readings *)
+
+Lemma map_o_ports ps :
+  map_o (fun p : list N => match p with [v] => Some (v, v) | [lo; hi] => Some (lo, hi) | _ => None end)
+        (map denote_port ps) = Some (map dp_port ps).
+Proof.
+  induction ps as [|p ps IH]; [reflexivity|]. cbn [map map_o]. rewrite IH. destruct p; reflexivity.
+Qed.
+
+Theorem dp_of_denote r : wf_rule r -> dp_of (denote r) = Some (denote_dp r).
+Proof.
+  intros (Hp & Hs & Hd & Hsp & Hdp).
+  destruct (first4_addr _ Hs) as [S1 S2]. destruct (first4_addr _ Hd) as [D1 D2].
+  unfold dp_of, denote. cbn [f_action f_dir f_proto f_src_ip f_src_mask f_dst_ip f_dst_mask f_sports f_dports].
+  rewrite S1, S2, D1, D2, !map_o_ports. rewrite N_list_eqb_refl.
+  unfold denote_dp. destruct (r_dir r); reflexivity.
+Qed.
+
+(* the specification's netmask is the usual one: the 32-bit value 2^32 - 2^(32-len) *)
+Lemma prefix_mask_value len : len <= 32 ->
+  match prefix_mask len with
+  | [a; b; c; d] => rd32 a b c d = 2 ^ 32 - 2 ^ (32 - len)
+  | _ => False
+  end.
+Proof.
+  intros H.
+  assert (S : forallb (fun n => match prefix_mask n with
+                                | [a; b; c; d] => rd32 a b c d =? 2 ^ 32 - 2 ^ (32 - n)
+                                | _ => false end) (Nrange 33) = true) by (vm_compute; reflexivity).
+  pose proof (sweep _ _ S len ltac:(lia)) as E. cbv beta in E.
+  unfold prefix_mask in *. apply N.eqb_eq in E. exact E.
+Qed.
+
+Theorem total_parse s :
+  (exists f, parse_flow_desc s = Ok f) \/ parse_flow_desc s = Err \/ parse_flow_desc s = Unmodelled.
+Proof. destruct (parse_flow_desc s); eauto. Qed.
+
+Theorem total_new s up :
+  (exists al, new_flow_desc s up = Ok al) \/ new_flow_desc s up = Err \/ new_flow_desc s up = Unmodelled.
+Proof. destruct (new_flow_desc s up); eauto. Qed.
